@@ -19,10 +19,11 @@ CONSTANTS Depth, MaxTime,
 VARIABLES S, M, n, lastAct
 vars == <<S, M, n, lastAct>>
 
+SetSeq(s) == IF s = {} THEN <<>> ELSE LET RECURSIVE F(_) F(t) == IF t = {} THEN <<>> ELSE LET x == CHOOSE y \in t : TRUE IN <<x>> \o F(t \ {x}) IN F(s)
 MCfgV == [node |-> NodeCfg, peerOrder |-> PeerOrder, peers |-> PeerCfg, appOrder |-> AppOrder,
           apps |-> [a \in Apps |-> [id |-> AppCfg[a].id, auth |-> AppCfg[a].auth, acct |-> AppCfg[a].acct,
                                     peers |-> SelectSeq(PeerOrder, LAMBDA p : p \in AppCfg[a].peers),
-                                    realms |-> <<>>, kind |-> AppCfg[a].kind, handler |-> AppCfg[a].handler]]]
+                                    realms |-> SetSeq(AppCfg[a].realms), kind |-> AppCfg[a].kind, handler |-> AppCfg[a].handler]]]
 C06 == INSTANCE Mon_C06 WITH MCfg <- MCfgV
 C07 == INSTANCE Mon_C07 WITH MCfg <- MCfgV
 C11 == INSTANCE Mon_C11 WITH MCfg <- MCfgV
@@ -31,12 +32,14 @@ C13 == INSTANCE Mon_C13 WITH MCfg <- MCfgV
 C08 == INSTANCE Mon_C08 WITH MCfg <- MCfgV
 C09 == INSTANCE Mon_C09 WITH MCfg <- MCfgV
 C17 == INSTANCE Mon_C17 WITH MCfg <- MCfgV
+C10 == INSTANCE Mon_C10 WITH MCfg <- MCfgV
 
 MonInit == [c06 |-> C06!Init, c07 |-> C07!Init, c11 |-> C11!Init, c12 |-> C12!Init, c13 |-> C13!Init,
-            c08 |-> C08!Init, c09 |-> C09!Init, c17 |-> C17!Init]
+            c08 |-> C08!Init, c09 |-> C09!Init, c17 |-> C17!Init, c10 |-> C10!Init]
 MonStep(Mo, st) == [c06 |-> C06!Step(Mo.c06, st), c07 |-> C07!Step(Mo.c07, st), c11 |-> C11!Step(Mo.c11, st),
                     c12 |-> C12!Step(Mo.c12, st), c13 |-> C13!Step(Mo.c13, st),
-                    c08 |-> C08!Step(Mo.c08, st), c09 |-> C09!Step(Mo.c09, st), c17 |-> C17!Step(Mo.c17, st)]
+                    c08 |-> C08!Step(Mo.c08, st), c09 |-> C09!Step(Mo.c09, st), c17 |-> C17!Step(Mo.c17, st),
+                    c10 |-> C10!Step(Mo.c10, st)]
 
 \* ---------------------------------------------------------------- message alphabet
 Hosts == Peers \cup {"x.r9"}
@@ -64,6 +67,9 @@ Msgs(c) ==
      THEN {Mk("APP", 272, TRUE, id[1], id[2], ap, h, rl, 0, t, TRUE, FALSE, <<>>, <<>>, FALSE)
              : id \in Ids, ap \in {RegApp, 9}, h \in sp, rl \in {NodeCfg.realm, "r9"}, t \in {FALSE, TRUE}} ELSE {}) \cup
   (IF "ans" \in Alpha THEN {Mk("APP", 272, FALSE, 1, 1, RegApp, h, "", 2001, FALSE, TRUE, FALSE, <<>>, <<>>, FALSE) : h \in sp \cup {""}} ELSE {}) \cup
+  (IF "sans" \in Alpha     \* answers (also late and repeated ones) to the requests the node sent on this connection
+     THEN {Mk("APP", 272, FALSE, S.snd[j].hbh, S.snd[j].e2e, AppCfg[S.snd[j].a].id, h, "", 2001, FALSE, TRUE, FALSE, <<>>, <<>>, FALSE)
+             : j \in {x \in 1..Len(S.snd) : S.snd[x].c = c}, h \in sp} ELSE {}) \cup
   (IF "ureq" \in Alpha THEN {Mk("APP", 9999, TRUE, 2, 1, RegApp, h, NodeCfg.realm, 0, FALSE, FALSE, FALSE, <<>>, <<>>, FALSE) : h \in sp} ELSE {})
 
 Usable(c) == S.conn[c].used /\ S.conn[c].sock = "open" /\ ~S.conn[c].connecting /\ S.conn[c].st # "CONNECTING"
@@ -75,6 +81,9 @@ Acts ==
   (IF Pairs THEN UNION {{[a |-> "feed", c |-> c, ms |-> <<m1, m2>>] : m1 \in {x \in Msgs(c) : x.cmd = "CE"}, m2 \in {x \in Msgs(c) : x.cmd \in {"APP", "DW"} /\ x.req}}
                         : c \in {x \in ConnIds : Usable(x)}} ELSE {}) \cup
   (IF Faults THEN UNION {{[a |-> "peer_close", c |-> c], [a |-> "peer_reset", c |-> c]} : c \in {x \in ConnIds : Usable(x)}} ELSE {}) \cup
+  (IF "send" \in Alpha /\ Len(S.snd) < 2
+     THEN {[a |-> "send", k |-> Len(S.snd) + 1, app |-> ap, realm |-> rl, timeout |-> to, pick |-> pk]
+             : ap \in Apps, rl \in {NodeCfg.realm, "r9"}, to \in {1, 30}, pk \in {"first", "last"}} ELSE {}) \cup
   \* an application answers a request it holds (or, with "resub", answers one a second time)
   {[a |-> "submit", app |-> S.held[j].a, c0 |-> S.held[j].c,
     m |-> Mk("APP", S.held[j].m.code, FALSE, S.held[j].m.hbh, S.held[j].m.e2e, S.held[j].m.app,
@@ -109,6 +118,7 @@ Inv13 == S.overflow \/ Sigs(M.c13.viol) \subseteq Known
 Inv08 == S.overflow \/ Sigs(M.c08.viol) \subseteq Known
 Inv09 == S.overflow \/ Sigs(M.c09.viol) \subseteq Known
 Inv17 == S.overflow \/ Sigs(M.c17.viol) \subseteq Known
+Inv10 == S.overflow \/ Sigs(M.c10.viol) \subseteq Known
 \* the atomic step always reaches quiescence within the bound of Quiesce
 Quiescent == ~AnyEnabled(S)
 NoOverflow == ~S.overflow
